@@ -20,6 +20,12 @@ KANI = [
       covers=["some name is rejected"], functions=["chunk_cache::disk::try_parse_key"], bounds="4 symbolic bytes", stubs=_st),
     H("hk_cache", "c12::key_total_44", "try_parse_key never panics on any 44-byte directory name", unwind=8, flags=FAST,
       covers=["some name is rejected", "some name parses"], functions=["chunk_cache::disk::try_parse_key"], bounds="44 symbolic bytes", stubs=_st),
+    H("hk_cache", "c12::key_total_8", "try_parse_key never panics on any 8-byte directory name", unwind=8, flags=FAST, tier="thorough",
+      covers=["some name is rejected"], functions=["chunk_cache::disk::try_parse_key"], bounds="8 symbolic bytes", stubs=_st),
+    H("hk_cache", "c12::key_total_48", "try_parse_key never panics on any 48-byte directory name", unwind=8, flags=FAST, tier="thorough",
+      covers=["some name is rejected"], functions=["chunk_cache::disk::try_parse_key"], bounds="48 symbolic bytes", stubs=_st, timeout=1800),
+    H("hk_cache", "c12::name_total_8", "CacheItem::parse never panics on any 8-byte file name", unwind=12, tier="thorough",
+      functions=["chunk_cache::disk::cache_item::CacheItem::parse"], bounds="8 symbolic bytes", stubs=_st),
     H("hk_cache", "c12::name_total_28", "CacheItem::parse never panics on any 28-byte file name", unwind=8, flags=FAST,
       covers=["some name parses"], functions=["chunk_cache::disk::cache_item::CacheItem::parse"], bounds="28 symbolic bytes", stubs=_st),
 ]
